@@ -39,6 +39,7 @@ def opts(tier):
     o.typeless_p = 0.05
     o.long_run_p = 0.006
     o.short_last_p = 0.08
+    o.declared_huge_p = 0.01
 
     def scaling(rng, spec, ctype):
         # scaled channels: the one-chunk cache then holds scaled chunks and scaling objects are shared by all reads
